@@ -42,7 +42,7 @@ def other_decorator_build(c):
     return build
 
 
-def run_config(c, start, evs, host, spied, live_spy=False, live_trace=False, builder=None, query=False, live_at=0):
+def run_config(c, start, evs, host, spied, live_spy=False, live_trace=False, builder=None, query=False, live_at=0, reads=False):
     """returns (list of per-event visible call lists, final state id, error)
     live_at: when the live flags are switched on: 0 = before start_at, 1 = right after start_at, k + 1 = after k events"""
     log = []
@@ -74,6 +74,13 @@ def run_config(c, start, evs, host, spied, live_spy=False, live_trace=False, bui
                 if host == "queued":
                     hsm.post_fifo(charts.ev(n))
                     hsm.next_rtc()
+                    if reads:
+                        # the program looks at the instrumentation between steps (None / empty for charts that keep none)
+                        keep = list(log)
+                        hsm.spy(); hsm.trace(); hsm.spy_rtc()
+                        if spied is True:
+                            hsm.current_state()
+                        log[:] = keep
                 else:
                     hsm.dispatch(charts.ev(n))
                 per_step.append(visible(log))
@@ -159,7 +166,10 @@ def explore(run, n_random, with_active=True):
                     if (ls or lt) and rng.random() < 0.4:
                         live_at = 1 if (host == "active" or rng.random() < 0.6) else rng.randint(2, len(evs) + 1)
                         run.count("live flags switched on after start_at")
-                    steps, final, err = run_config(c, start, evs, host, spied, ls, lt, query=query, live_at=live_at)
+                    reads = host == "queued" and rng.random() < 0.4
+                    if reads:
+                        run.count("spy() / trace() / spy_rtc() read between steps")
+                    steps, final, err = run_config(c, start, evs, host, spied, ls, lt, query=query, live_at=live_at, reads=reads)
                     run.traces_validated += 1
                     run.count("host=%s spied=%s" % (host, spied))
                     same = flat(steps) == flat(ref_steps) and final == ref_final and err == ref_err
@@ -168,7 +178,7 @@ def explore(run, n_random, with_active=True):
                                     "host %s, %s, live_spy=%s live_trace=%s: actions %s (final %s, %s) differ from the plain processor's %s (final %s, %s)"
                                     % (host, "spied" if spied else "un-spied", ls, lt, flat(steps)[:30], final, err,
                                        flat(ref_steps)[:30], ref_final, ref_err),
-                                    dict(cj, host=host, spied=spied, live_spy=ls, live_trace=lt, live_at=live_at))
+                                    dict(cj, host=host, spied=spied, live_spy=ls, live_trace=lt, live_at=live_at, reads=reads))
         # only some of the states carry the decorator (the start state among them or not)
         some = frozenset(i for i in range(1, c.n + 1) if rng.random() < 0.5)
         if some and len(some) < c.n:
@@ -251,7 +261,7 @@ def replay(case):
     if "live_at" in cc:
         print(cc["host"], "live flags", cc.get("live_spy"), cc.get("live_trace"), "switched on at step", cc["live_at"],
               run_config(c, cc["start"], cc["events"], cc["host"], bool(cc["spied"]), cc.get("live_spy", False), cc.get("live_trace", False),
-                         query=cc.get("query", False), live_at=cc["live_at"]))
+                         query=cc.get("query", False), live_at=cc["live_at"], reads=cc.get("reads", False)))
     if isinstance(cc.get("spied"), list):
         print(cc["host"], "mixed", run_config(c, cc["start"], cc["events"], cc["host"], frozenset(cc["spied"]), query=cc.get("query", False)))
     return 0
